@@ -60,7 +60,7 @@ REQUIRED = ["io_roundtrips", "io_tiff", "io_npy", "io_nrrd", "io_uint_to_float",
             "rasters_after_inplace_edit", "rasters_of_derived_trees", "io_non_contiguous_input",
             "transformer_reused", "rejected_calls_before_raster",
             "tap_get_samplers"]
-FLOOR = {"quick": 450, "thorough": 9000}
+FLOOR = {"quick": 450, "thorough": 45000}
 SHARDS = {"quick": 8, "thorough": 16}
 TIMEOUT = {"quick": 400, "thorough": 3000}
 
@@ -492,7 +492,7 @@ def run(ctx):
     rng = ctx.rng
     tap = probes.CallTap({"get_samplers": ToImageStack._get_samplers})
     with tap:
-        for k in range(ctx.scale(640, 12800)):
+        for k in range(ctx.scale(640, 64000)):
             shape = SHAPES[int(rng.integers(0, len(SHAPES)))]
             cmode = int(rng.integers(0, 3))
             if cmode:
@@ -515,7 +515,7 @@ def run(ctx):
             case["layout"] = str(rng.choice(["C", "C", "F", "T", "S"]))
             ctx.case(case, nontrivial=int(np.prod(shape)) >= 2, klass=f"io/{fmt}")
             execute(ctx, case)
-        for k in range(ctx.scale(150, 3000)):
+        for k in range(ctx.scale(150, 15000)):
             u = rng.random()
             if u < 0.35:
                 res = [float(rng.choice([0.5, 1.0, 2.0]))] * 3
